@@ -21,7 +21,7 @@ CLAIMED = {
  "C08": ("PR1-PR5 LX1 LX2 FM6; supporting TL3 TL4", "typed-syntax-tree object identity checks + lexer state-function graph reachability + loop progress path search",
          "every ERROR arm reports the tested token's own Value; every illegalToken quotes the line of the token it cites; the scan ends only via an ERROR token or emit(EOF); a task body cannot reach EOF without RBRACE or error; every parser token loop advances and leaves on ERROR; no line scanner with an unconsulted Err() in lexer/parser/ast. Decides these clauses only, not totality/no-panic over all byte strings",
          "not covered: absence of panics and cursor arithmetic over all inputs (declined, value-level); line numbers within range"),
- "C09": ("SH1 SH2 RT1 RT2 RT3 RT4 GR6 CP8; supporting CP1 CP10 HS6", "error-flow discipline check (non-nil edge must end in non-nil error returns) along the whole call chain + loop/guard shape analysis over go/ssa",
+ "C09": ("SH1 SH2 RT1-RT5 GR6 CP8; supporting CP1 CP10 HS6", "error-flow discipline check (non-nil edge must end in non-nil error returns) along the whole call chain + loop/guard shape analysis over go/ssa",
          "the interpreter runs with errexit and its exit status reaches Result.Status or the returned error; Ok() methods are Status==0 / conjunctions; every caller of SpokFile.Run examines every result unconditionally and fails on the first not-Ok; errors propagate on every call edge to Runner.Run; main reports on real stderr and exits non-zero; digests recorded only under Ok(); (supporting, shared with C01) a skip requires digest equality and the old digest is only re-instated after a failure",
          "not covered: exit-status computation inside mvdan.cc/sh; flag validation inside the CLI library"),
  "C10": ("CP4 CP7 CP8 CP12; supporting HS6", "ordering (must-precede) analysis on the intra-iteration CFG + error-edge discipline check over go/ssa",
